@@ -28,7 +28,7 @@ type BOp struct {
 	C   int    `json:"c,omitempty"`   // consumer slot
 	Ctx int    `json:"ctx,omitempty"` // context id (0 = background)
 	N   int    `json:"n,omitempty"`   // batch size / range limit
-	M   string `json:"m,omitempty"`   // range callback behaviour: "" | "stop" | "panic"
+	M   string `json:"m,omitempty"`   // range callback behaviour: "" | "stop" | "panic"; put: "nil" = the values are nil
 	// burst: N ms of put/get/commit on consumer C, GapUs apart, with Size observations; see the "sustain" profile
 	GapUs int `json:"gap_us,omitempty"`
 	// setcleaner: SetCleanerConfig while the buffer is in use (the cooldown of the scenario is kept); cfgget: CleanerConfig()
@@ -249,7 +249,7 @@ func (x *bufExec) do(g string, op BOp) {
 			x.valSeq[g]++
 			ivals[i] = gnum(g)*1000 + x.valSeq[g]
 			vals[i] = ivals[i]
-			if x.sc.Profile == "wake" && (ivals[i]*7+n)%9 == 0 {
+			if op.M == "nil" || (x.sc.Profile == "wake" && (ivals[i]*7+n)%9 == 0) {
 				// nil is a value like any other: a blocked Get must be woken by it too
 				ivals[i], vals[i] = nilVal, nil
 			}
@@ -786,14 +786,14 @@ func genBufScenario(rng *rand.Rand, profile string, mode string) *BScenario {
 			case 0, 1, 2, 3, 4, 5:
 				wakers = append(wakers, BOp{K: "cancel", Ctx: c})
 			case 6, 7:
-				wakers = append(wakers, BOp{K: "put", N: 1 + rng.Intn(2)})
+				wakers = append(wakers, BOp{K: "put", N: 1 + rng.Intn(2), M: []string{"", "", "nil"}[rng.Intn(3)]})
 			}
 		}
 		switch rng.Intn(6) {
 		case 0:
 			wakers = append(wakers, BOp{K: "bclose"})
 		case 1:
-			wakers = append(wakers, BOp{K: "put", N: 1})
+			wakers = append(wakers, BOp{K: "put", N: 1, M: []string{"", "nil"}[rng.Intn(2)]})
 		case 2:
 			wakers = append(wakers, BOp{K: "close", C: 1})
 		}
